@@ -57,6 +57,12 @@ impl<'a, T: Send + Sync> AtomicIter<&'a T> for ConIterOfSlice<'a, T> {
 
     #[inline(always)]
     fn progress_and_get_begin_idx(&self, number_to_fetch: usize) -> Option<usize> {
+        // an exhausted iterator is not advanced any further: however often it is polled after the end, the counter
+        // stays where it is and cannot wrap around to positions that are already delivered
+        if self.counter().current() >= self.initial_len() {
+            return None;
+        }
+
         // no more than `initial_len` positions are ever needed: clamping keeps the counter from wrapping for huge requests
         let begin_idx = self
             .counter()
